@@ -176,6 +176,9 @@ def capacity_vectors(fps, k, names_wanted):
         "tight": [total / k] * k,  # a float from 2 agents on
         "bigfirst": [total] + [fmax - 1] * (k - 1),
         "biglast": [fmax - 1] * (k - 1) + [total],
+        # an agent without any capacity next to agents with plenty (the hints "one" / "two" pin a computation on the last agent)
+        "zerolast": [10 ** 4] * (k - 1) + [0],
+        "zerofirst": [0] + [10 ** 4] * (k - 1),
     }
     seen, out = [], []
     for name in names_wanted:
@@ -254,7 +257,7 @@ def hint_profiles(nodes, k, model, wanted):
 def plan(tier):
     q = tier == "quick"
     P = {}
-    all_caps = ["ample", "sum", "fmax", "below", "plus1", "tight", "bigfirst", "biglast"]
+    all_caps = ["ample", "sum", "fmax", "below", "plus1", "tight", "bigfirst", "biglast", "zerolast", "zerofirst"]
     P["draws"] = 4 if q else 6  # random() draws answered from the 2-point menu, per call
     P["perm"] = 4 if q else 5  # lists up to this length: every permutation at the first shuffle of a call
     P["generic_shapes"] = [0, 1, 3, 4, 5, 6, 7, 8, 9, 11] if q else list(range(len(GENERIC_SHAPES)))
@@ -263,7 +266,7 @@ def plan(tier):
     P["menus"] = {
         # dimensions a method never reads are kept at their default
         "oneagent": dict(caps=["ample", "below"], hosting=["unset"], routes=["unset"], hints=["none", "one"]),
-        "adhoc": dict(caps=all_caps if not q else all_caps[:7], hosting=["unset", "pin"], routes=["unset"],
+        "adhoc": dict(caps=all_caps if not q else all_caps[:7] + ["zerolast"], hosting=["unset", "pin"], routes=["unset"],
                       hints=["none", "one", "all0", "two", "hw"]),
         "greedy": dict(caps=all_caps if not q else ["ample", "sum", "fmax", "below", "tight", "bigfirst"],
                        hosting=["unset", "d1", "pin", "costs"] if not q else ["unset", "d1", "pin"],
